@@ -11,11 +11,14 @@ COMMON_NOTE = ("Trusted: Lean 4.33 kernel with axioms ⊆ {propext, Classical.ch
 
 CHECKS = {
     "C01": dict(
-        technique="Lean 4 proof (index flattening, folding, accumulation frame theorems) + tie of the Lean LNodes semantics to compiled C + differential oracle",
+        technique="Lean 4 proof (argument factorisation sound for every accepted graph; Lean transcription of the block / quadrature-loop generator with genBlock_spec, quadLoop_spec, kernel_meets_spec_partial; flattening, folding, accumulation frame theorems) + structural correspondence with the real generators + Lean semantics tied to compiled C + differential oracle",
         text=("Theorems on the cores every cell kernel rests on (row-major flattening in range/injective for any rank, global_index value, float_product, "
               "A ← A + T) hold for all inputs; the per-program part executes every exported kernel AST in the Lean semantics (Float) against the compiled C kernel "
               "and compares every cell kernel of the corpus with an independent oracle (own UFL lowering flags + NumPy interpreter + Basix) at rel. tol 1e-10. "
-              "IR-level cores (tables, factorisation) are added by the IR cluster theorems when present. Floating point: partial."),
+              "IR level: factorize_sound (the argument factorisation of every accepted expression graph preserves its value), table classification/compression/access lemmas — real graphs and tables are compared with the Lean models. "
+              "Code generation: generate_block_parts, the quadrature-loop assembly and generate_partition are transcribed in Lean and compared as exact structure with every intercepted call of the real generators; "
+              "genBlock_spec / nest_accumulate / quadLoop_spec prove that the emitted loop nest adds Σ_q Σ_blocks fw·Π tables to A for all block dims, point counts and table contents (side conditions decidable, evaluated on every real block); "
+              "kernel_meets_spec_partial leaves one named hypothesis (the definitions before the tensor computation establish the fw values). Floating point: partial."),
         design="DESIGN.md §6 C01"),
     "C02": dict(
         technique="Lean 4 proof (macro layout bijections, facet maps, complete reference-geometry tables by decide) + regenerated tables + independent facet oracle",
